@@ -547,22 +547,25 @@ func (p *pep440Extension) compare(e extension) int {
 		return sgn(pRank, qRank)
 	}
 
-	// Same rank, so now we must look at the contents of the extension.
+	// Same rank, so the prerelease letters, if any, are the same. The rest
+	// is ordered as PEP 440 orders it: the prerelease number, then the
+	// postrelease, then the dev release, and the local segment last.
 	switch pRank {
 	case pep440Alpha, pep440Beta, pep440Prerelease:
 		if s := sgn(pExt.preNum, qExt.preNum); s != 0 {
 			return s
 		}
-		fallthrough
-	case pep440Local:
-		if s := pep44CompareLocal(pExt.local, qExt.local); s != 0 {
-			return s
+	}
+
+	// A post can attach to a prerelease; with one is after without.
+	if pExt.postPresent != qExt.postPresent {
+		if pExt.postPresent {
+			return 1
 		}
-		fallthrough
-	case pep440Post:
-		if s := sgn(pExt.postNum, qExt.postNum); s != 0 {
-			return s
-		}
+		return -1
+	}
+	if s := sgn(pExt.postNum, qExt.postNum); s != 0 {
+		return s
 	}
 
 	// Dev can attach to anything (although we've never seen one on a post).
@@ -578,7 +581,8 @@ func (p *pep440Extension) compare(e extension) int {
 		}
 	}
 
-	return 0
+	// Local can attach to anything too; with one is after without.
+	return pep44CompareLocal(pExt.local, qExt.local)
 }
 
 // pep440CompareLocal compares the local strings elementwise.
